@@ -112,11 +112,21 @@ macro_rules! filter_impl {
             let mut fc = FilterConfig::new().mode(if c.deny { FilterMode::Deny } else { FilterMode::Allow });
             if let Some(p) = &c.pf {
                 let mut f = PortFilter::new();
-                for &x in &p.sp {
-                    f = f.source(x);
+                // lists of three or more ports go through the list API followed by a single-port call for the last
+                // element (both builder forms, in the order given: ascending, descending and unsorted lists exist)
+                if p.sp.len() >= 3 {
+                    f = f.source_list(p.sp[..p.sp.len() - 1].to_vec()).source(p.sp[p.sp.len() - 1]);
+                } else {
+                    for &x in &p.sp {
+                        f = f.source(x);
+                    }
                 }
-                for &x in &p.dp {
-                    f = f.destination(x);
+                if p.dp.len() >= 3 {
+                    f = f.destination_list(p.dp[..p.dp.len() - 1].to_vec()).destination(p.dp[p.dp.len() - 1]);
+                } else {
+                    for &x in &p.dp {
+                        f = f.destination(x);
+                    }
                 }
                 for &(a, b) in &p.sr {
                     f = f.source_range(a..b);
@@ -174,8 +184,8 @@ pub fn build_for(krate: &str, c: &Cfg) -> Eval {
 pub fn port_filters() -> Vec<Option<PF>> {
     let mut v = vec![None];
     for any in [false, true] {
-        for (sp, dp) in [(vec![], vec![]), (vec![80], vec![]), (vec![], vec![443]), (vec![80], vec![443]), (vec![0], vec![65535]), (vec![80, 8000], vec![80])] {
-            for (sr, dr) in [
+        for (sp, dp) in [(vec![], vec![]), (vec![80], vec![]), (vec![], vec![443]), (vec![80], vec![443]), (vec![0], vec![65535]), (vec![80, 8000], vec![80]), (vec![8000, 80], vec![443, 80]), (vec![443, 8443, 80], vec![8080, 22, 443, 80]), (vec![80, 80], vec![65535, 0, 443])] {
+            for (ri, (sr, dr)) in [
                 (vec![], vec![]),
                 (vec![(8000u16, 9000u16)], vec![]),
                 (vec![], vec![(8000u16, 9000u16)]),
@@ -186,7 +196,14 @@ pub fn port_filters() -> Vec<Option<PF>> {
                 (vec![(65534, 65535)], vec![(79, 81)]),
                 (vec![(9000, 8000)], vec![]),
                 (vec![(1, 5), (443, 444)], vec![(65535, 65535)]),
-            ] {
+            ]
+            .into_iter()
+            .enumerate()
+            {
+                // the unsorted / longer lists are combined with "no range" and one range pair only
+                if sp.len() + dp.len() > 3 && !(ri == 0 || ri == 7) {
+                    continue;
+                }
                 v.push(Some(PF { sp: sp.clone(), dp: dp.clone(), sr, dr, any }));
             }
         }
